@@ -37,6 +37,7 @@ func main() {
 	zerolog.SetGlobalLevel(zerolog.Disabled)
 	out := hx.Open()
 	defer out.Close()
+	defer cleanupTmp()
 	if lines := hx.ReplayLines(); lines != nil {
 		for _, l := range lines {
 			if len(l) >= 2 {
@@ -81,6 +82,13 @@ var (
 	tmpOnce sync.Once
 	sockSeq int64
 )
+
+// cleanupTmp removes the directory of this process's sockets.
+func cleanupTmp() {
+	if tmpDir != "" {
+		os.RemoveAll(tmpDir)
+	}
+}
 
 // underlying starts a keyring-backed ssh-agent on a unix socket.
 func underlying(ag sshagent.Agent) (string, func()) {
